@@ -5,7 +5,7 @@
 // cleartext origin log how each request was forwarded; a hijacking modifier
 // writes a marker through the connection it was handed.
 //
-// IN tokens:  L<p|s|t|x> T<t|p|n>[b|c] [A<n|1|2><u|a|d>] req*
+// IN tokens:  L<p|s|t|x> T<t|p|n>[b|c] [A<n|1|2><u|a|d>] [Z] req*
 //
 //	L  listener: p plain TCP, s traffic-shaped, t transparent TLS (no CONNECT; T must be n),
 //	   x transparent TLS wrapped by a traffic-shaping listener (no CONNECT; T must be n)
@@ -18,6 +18,8 @@
 //	   1 http/1.1, 2 h2 and http/1.1; and mitm.Config.SetH2Config: u unset, a set with a filter that
 //	   allows the host, d set with a filter that allows no host.  A2a (h2 is negotiated and the
 //	   connection goes to the HTTP/2 relay) is not a case of this property: INVALID.
+//	Z  the client PIPELINES: it writes the first two or three requests (up to a hijacking or
+//	   host-less one) in one write, before reading the first response, then reads the responses in order
 //	req = <form>[H][I|M|V]
 //	  form o origin-form, Host: example.com | a absolute http://other.test/.. | s absolute https://other.test/..
 //	       n origin-form, HTTP/1.0, no Host header (closes the connection)
@@ -338,6 +340,10 @@ func runCase(in []string) (out []string) {
 			return []string{"INVALID"}
 		}
 	}
+	pipeline := false
+	if len(rest) > 0 && rest[0] == "Z" {
+		pipeline, rest = true, rest[1:]
+	}
 	var toks []reqTok
 	for _, t := range rest {
 		if len(t) < 1 || len(t) > 3 || !strings.ContainsRune("oasn", rune(t[0])) {
@@ -489,11 +495,7 @@ func runCase(in []string) (out []string) {
 			cur, br = tc, bufio.NewReader(tc)
 		}
 	}
-	for k, t := range toks {
-		i := k + 1
-		if dead {
-			break
-		}
+	reqText := func(i int, t reqTok) string {
 		var sb strings.Builder
 		switch t.form {
 		case 'o':
@@ -506,10 +508,37 @@ func runCase(in []string) (out []string) {
 			fmt.Fprintf(&sb, "GET /r%d HTTP/1.0\r\n", i)
 		}
 		fmt.Fprintf(&sb, "X-Tok: %s%d\r\n\r\n", pref, i)
-		cur.SetDeadline(time.Now().Add(ioWait))
-		if _, err := io.WriteString(cur, sb.String()); err != nil {
-			dead = true
+		return sb.String()
+	}
+	// pipelining: the leading group of requests goes out in one write
+	group := 1
+	if pipeline {
+		for group = 0; group < len(toks) && group < 3 && !toks[group].hijack && toks[group].form != 'n'; group++ {
+		}
+		if group < 1 {
+			group = 1
+		}
+	}
+	written := 0
+	for k, t := range toks {
+		i := k + 1
+		if dead {
 			break
+		}
+		if k >= written {
+			text, upto := "", k+1
+			if k == 0 && group > 1 {
+				upto = group
+			}
+			for j := k; j < upto; j++ {
+				text += reqText(j+1, toks[j])
+			}
+			written = upto
+			cur.SetDeadline(time.Now().Add(ioWait))
+			if _, err := io.WriteString(cur, text); err != nil {
+				dead = true
+				break
+			}
 		}
 		res, err := http.ReadResponse(br, &http.Request{Method: "GET"})
 		if err != nil {
@@ -595,6 +624,10 @@ func main() {
 			cfg.Count("alpn_h2config=" + rq[0][1:])
 			rq = rq[1:]
 		}
+		if len(rq) > 0 && rq[0] == "Z" {
+			cfg.Count("pipelined=1")
+			rq = rq[1:]
+		}
 		cfg.Count(fmt.Sprintf("requests=%d", len(rq)))
 		for _, t := range rq {
 			cfg.Count("form=" + t[:1])
@@ -673,6 +706,20 @@ func main() {
 			emit("alpnV", []string{m[0], m[1], a, "oV", "sI", "o"})
 		}
 	}
+	// pipelined requests inside every kind of tunnel / listener (sequences of 2 and 3 requests,
+	// also followed by a hijack and with the early ClientHello)
+	for _, m := range [][2]string{{"Lp", "Tt"}, {"Ls", "Tt"}, {"Lt", "Tn"}, {"Lx", "Tn"}, {"Lp", "Tp"}, {"Ls", "Tp"}, {"Lp", "Ttb"}, {"Ls", "Tpc"}} {
+		for _, s := range seqs {
+			if len(s) < 2 {
+				continue
+			}
+			emit("pipe", append([]string{m[0], m[1], "Z"}, s...))
+			if len(s) == 2 {
+				emit("pipeH", append(append([]string{m[0], m[1], "Z"}, s...), "oH"))
+				emit("pipeM", append([]string{m[0], m[1], "Z"}, s[0]+"I", s[1]+"V", "o", "a"))
+			}
+		}
+	}
 	for _, m := range modes {
 		for _, s := range seqs {
 			emit("exh", append([]string{m[0], m[1]}, s...))
@@ -721,6 +768,9 @@ func main() {
 		}
 		if r.Chance(1, 2) {
 			in = append(in, []string{"Ana", "And", "A1u", "A1a", "A1d", "A2u", "A2d"}[r.Intn(7)])
+		}
+		if r.Chance(1, 3) {
+			in = append(in, "Z")
 		}
 		ln := r.Range(1, maxLen)
 		for i := 0; i < ln; i++ {
